@@ -30,6 +30,7 @@ def run_one(prop, tier, repo, seed, out_dir=None):
             # violations already decided stay valid; without any, the run is analysis-broken
             ctx.broken = str(e)
         names.check_exits(ctx)              # rule X: no exit of an analysed function that the rules have never read
+        names.check_new_methods(ctx)        # rule M: no new override of an operation in a class of the anchor files
         try:
             names.check_names(ctx)          # rule N of every property (sa/names.py); an unbound name may be the very reason a rule could not be decided
         except (AnalysisError, AnchorError) as e:
